@@ -112,6 +112,9 @@ def run(ctx: Ctx) -> Result:
                         cases.append(dict(base, store_fails=False))
                         if result is not None and rng.random() < 0.5:
                             cases.append(dict(base, store_fails=True))
+                        if result is not None and rng.random() < 0.25:
+                            # ... over a broker whose terminal calls take 30 ms on the wire
+                            cases.append(dict(base, store_fails=True, round_trip=0.03))
     # no results broker configured
     for _ in range(ctx.scale(40, 400)):
         c = dict(rng.choice(cases), rbb=False, store_fails=False)
